@@ -266,7 +266,38 @@ func (s *c01Sim) mutate(c *c01Member, e *verifadapt.Envelope, phase int) []*veri
 			out = append(out, f)
 		}
 	case *MemberPublicKeySharePointsMessage:
-		switch tp.Weighted("byz-p7", 8, 1, 3, 1, 4) {
+		switch tp.Weighted("byz-p7", 8, 1, 3, 1, 4, 2) {
+		case 5: // too MANY points: the real polynomial plus delta*prod(x-h) over all honest receivers h,
+			// i.e. consistent with every honest member's share but of higher degree
+			poly := []*big.Int{s.randScalar("p7x-delta")}
+			for _, h := range s.honest {
+				root := big.NewInt(int64(h))
+				next := make([]*big.Int, len(poly)+1)
+				for d := range next {
+					next[d] = big.NewInt(0)
+				}
+				for d, cf := range poly {
+					next[d+1].Add(next[d+1], cf)
+					next[d].Sub(next[d], new(big.Int).Mul(cf, root))
+				}
+				for d := range next {
+					next[d].Mod(next[d], bn256.Order)
+				}
+				poly = next
+			}
+			cp := &MemberPublicKeySharePointsMessage{senderID: m.senderID, sessionID: m.sessionID, publicKeySharePoints: append([]*bn256.G2(nil), m.publicKeySharePoints...)}
+			for d, cf := range poly {
+				pt := new(bn256.G2).ScalarBaseMult(cf)
+				if d < len(cp.publicKeySharePoints) {
+					cp.publicKeySharePoints[d] = new(bn256.G2).Add(cp.publicKeySharePoints[d], pt)
+				} else {
+					cp.publicKeySharePoints = append(cp.publicKeySharePoints, pt)
+				}
+			}
+			if f := s.forge(c, cp); f != nil {
+				out = append(out, f)
+				r.Fault("byz-p7-extra-degree-points-consistent-with-honest-shares")
+			}
 		case 4: // points of a polynomial that agrees with the real one only at a chosen subset of receivers
 			k := 1 + tp.Choose("p7-subset-size", len(m.publicKeySharePoints)-1+0)
 			if k > len(m.publicKeySharePoints)-1 {
@@ -337,7 +368,22 @@ func (s *c01Sim) mutate(c *c01Member, e *verifadapt.Envelope, phase int) []*veri
 			out = append(out, f)
 		}
 	case *MisbehavedEphemeralKeysMessage:
-		switch tp.Weighted("byz-p10", 8, 1, 2, 2, 1, 1) {
+		switch tp.Weighted("byz-p10", 8, 1, 2, 2, 1, 1, 2) {
+		case 6: // additionally reveal the key shared with another corrupt member
+			cp := &MisbehavedEphemeralKeysMessage{senderID: m.senderID, sessionID: m.sessionID, privateKeys: map[group.MemberIndex]*ephemeral.PrivateKey{}}
+			for k, v := range m.privateKeys {
+				cp.privateKeys[k] = v
+			}
+			if len(s.corrupt) > 1 {
+				v := s.pickMember("p10-corrupt", s.corrupt)
+				if kp, ok := c.ek.ephemeralKeyPairs[v]; ok && v != c.idx {
+					cp.privateKeys[v] = kp.PrivateKey
+				}
+			}
+			if f := s.forge(c, cp); f != nil {
+				out = append(out, f)
+				r.Fault("byz-p10-reveal-for-corrupt-member")
+			}
 		case 0:
 			out = append(out, e)
 		case 1:
@@ -551,35 +597,55 @@ func (s *c01Sim) mutateAccusations(c *c01Member, genuine map[group.MemberIndex]*
 	if len(genuine) > 0 {
 		r.Probe("corrupt-member-has-true-accusation-" + tag)
 	}
-	switch tp.Weighted("byz-"+tag, 9, 1, 3, 2, 1, 1, 1) {
-	case 0:
-	case 1:
-		return nil
-	case 2: // false accusation against an honest member with the real key
-		v := s.pickMember(tag+"-false-victim", s.honest)
-		if kp, ok := c.ek.ephemeralKeyPairs[v]; ok {
-			keys[v] = kp.PrivateKey
-			r.Fault("byz-" + tag + "-false-accusation")
+	// up to three modifications in one message, so that messages with several
+	// entries of different kinds occur (resolution walks a Go map: the order in
+	// which one member sees the entries is not the order another member sees)
+	nmods := tp.Weighted("byz-"+tag+"-mods", 9, 6, 3, 2)
+	for mi := 0; mi < nmods; mi++ {
+		switch tp.Weighted("byz-"+tag, 0, 1, 3, 2, 1, 1, 1, 3) {
+		case 1:
+			return nil
+		case 2: // false accusation against an honest member with the real key
+			v := s.pickMember(tag+"-false-victim", s.honest)
+			if kp, ok := c.ek.ephemeralKeyPairs[v]; ok {
+				keys[v] = kp.PrivateKey
+				r.Fault("byz-" + tag + "-false-accusation")
+			}
+		case 3: // accusation with a key that does not match
+			v := s.pickMember(tag+"-wrongkey-victim", s.others(c.idx))
+			keys[v] = ephemeral.UnmarshalPrivateKey(s.randScalar(tag + "-wrong-key").Bytes())
+			r.Fault("byz-" + tag + "-wrong-key-accusation")
+		case 4: // accuse self
+			if kp, ok := c.ek.ephemeralKeyPairs[s.pickMember(tag+"-self-key", s.others(c.idx))]; ok {
+				keys[c.idx] = kp.PrivateKey
+				r.Fault("byz-" + tag + "-accuse-self")
+			}
+		case 5: // accuse a non-existent index
+			idx := group.MemberIndex(0)
+			if tp.Chance(tag+"-hi", 1, 2) {
+				idx = group.MemberIndex(s.n + 1 + tp.Choose(tag+"-hi-off", 3))
+			}
+			keys[idx] = ephemeral.UnmarshalPrivateKey(s.randScalar(tag + "-nx-key").Bytes())
+			r.Fault("byz-" + tag + "-accuse-nonexistent")
+		case 6: // drop the genuine accusations
+			keys = map[group.MemberIndex]*ephemeral.PrivateKey{}
+			r.Fault("byz-" + tag + "-withhold-accusations")
+		case 7: // accuse another corrupt member with the real key (true if that
+			// member sent this one a bad share earlier, false otherwise; possibly
+			// held back from phase 4 and raised only in phase 8)
+			if len(s.corrupt) > 1 {
+				v := s.pickMember(tag+"-corrupt-victim", s.corrupt)
+				if v != c.idx {
+					if kp, ok := c.ek.ephemeralKeyPairs[v]; ok {
+						keys[v] = kp.PrivateKey
+						r.Fault("byz-" + tag + "-accuse-corrupt-member")
+					}
+				}
+			}
 		}
-	case 3: // accusation with a key that does not match
-		v := s.pickMember(tag+"-wrongkey-victim", s.others(c.idx))
-		keys[v] = ephemeral.UnmarshalPrivateKey(s.randScalar(tag + "-wrong-key").Bytes())
-		r.Fault("byz-" + tag + "-wrong-key-accusation")
-	case 4: // accuse self
-		if kp, ok := c.ek.ephemeralKeyPairs[s.pickMember(tag+"-self-key", s.others(c.idx))]; ok {
-			keys[c.idx] = kp.PrivateKey
-			r.Fault("byz-" + tag + "-accuse-self")
-		}
-	case 5: // accuse a non-existent index
-		idx := group.MemberIndex(0)
-		if tp.Chance(tag+"-hi", 1, 2) {
-			idx = group.MemberIndex(s.n + 1 + tp.Choose(tag+"-hi-off", 3))
-		}
-		keys[idx] = ephemeral.UnmarshalPrivateKey(s.randScalar(tag + "-nx-key").Bytes())
-		r.Fault("byz-" + tag + "-accuse-nonexistent")
-	case 6: // drop the genuine accusations
-		keys = map[group.MemberIndex]*ephemeral.PrivateKey{}
-		r.Fault("byz-" + tag + "-withhold-accusations")
+	}
+	if len(keys) >= 2 {
+		r.Probe("accusation-message-with-several-entries-" + tag)
 	}
 	return keys
 }
@@ -603,6 +669,13 @@ func c01Reindex(m net.TaggedMarshaler, idx group.MemberIndex, session string) ne
 		return &MisbehavedEphemeralKeysMessage{senderID: idx, privateKeys: x.privateKeys, sessionID: session}
 	}
 	return m
+}
+
+func c01SenderOf(e *verifadapt.Envelope) group.MemberIndex {
+	if sd, ok := e.Sent.(interface{ SenderID() group.MemberIndex }); ok {
+		return sd.SenderID()
+	}
+	return 0
 }
 
 func c01Phase(m net.TaggedMarshaler) int {
@@ -742,6 +815,7 @@ func c01Run(t *testing.T, r *verifsim.Run, mode string) {
 	}
 	synctest.Wait()
 
+	perReceiver := tp.Chance("per-receiver-orders", 1, 2)
 	total := ProtocolBlocks()
 	limit := start + total + 3
 	// pending deliveries: per block offset
@@ -796,38 +870,51 @@ func c01Run(t *testing.T, r *verifsim.Run, mode string) {
 		}
 		queue = rest
 		if len(due) > 0 {
-			// one global cross-sender interleaving that keeps each sender's own
-			// order (consistent broadcast): repeatedly pick a sender with pending mail
-			bySender := map[int][]*verifadapt.Envelope{}
-			var senders []int
-			for _, e := range due {
-				if _, ok := bySender[e.From]; !ok {
-					senders = append(senders, e.From)
+			// cross-sender interleaving that keeps each sender's own order
+			// (consistent broadcast). Either one global interleaving or - half of
+			// the runs - an independent one per receiver.
+			interleave := func() []*verifadapt.Envelope {
+				bySender := map[int][]*verifadapt.Envelope{}
+				var senders []int
+				for _, e := range due {
+					key := e.From*1000 + int(c01SenderOf(e))
+					if _, ok := bySender[key]; !ok {
+						senders = append(senders, key)
+					}
+					bySender[key] = append(bySender[key], e)
 				}
-				bySender[e.From] = append(bySender[e.From], e)
-			}
-			sort.Ints(senders)
-			var order []*verifadapt.Envelope
-			for len(senders) > 0 {
-				i := tp.Choose("interleave", len(senders))
-				if i != 0 {
-					r.NonTrivial()
+				sort.Ints(senders)
+				var order []*verifadapt.Envelope
+				for len(senders) > 0 {
+					i := tp.Choose("interleave", len(senders))
+					if i != 0 {
+						r.NonTrivial()
+					}
+					sd := senders[i]
+					order = append(order, bySender[sd][0])
+					bySender[sd] = bySender[sd][1:]
+					if len(bySender[sd]) == 0 {
+						senders = append(senders[:i], senders[i+1:]...)
+					}
 				}
-				sd := senders[i]
-				order = append(order, bySender[sd][0])
-				bySender[sd] = bySender[sd][1:]
-				if len(bySender[sd]) == 0 {
-					senders = append(senders[:i], senders[i+1:]...)
+				// retransmission duplicates (same seqno) at random places
+				if tp.Chance("retransmit", 1, 4) {
+					k := tp.Choose("retransmit-which", len(order))
+					order = append(order, order[k])
+					r.Fault("retransmission-duplicate")
 				}
+				return order
 			}
-			// retransmission duplicates (same seqno) at random places
-			if tp.Chance("retransmit", 1, 4) {
-				k := tp.Choose("retransmit-which", len(order))
-				order = append(order, order[k])
-				r.Fault("retransmission-duplicate")
-			}
-			for _, nn := range s.sn.Nodes {
-				s.sn.DeliverBatch(order, nn.Index)
+			if perReceiver {
+				for _, nn := range s.sn.Nodes {
+					s.sn.DeliverBatch(interleave(), nn.Index)
+				}
+				r.Fault("per-receiver-interleaving")
+			} else {
+				order := interleave()
+				for _, nn := range s.sn.Nodes {
+					s.sn.DeliverBatch(order, nn.Index)
+				}
 			}
 			synctest.Wait()
 		}
